@@ -7,7 +7,9 @@ order of main()'s steps, the complete list of file-system call sites).
 
 Tie (all against code built from a scratch copy of /repo's working tree):
   A  clean-inproc : the REAL `cleanImplementationFiles` (static, #included) run in generated directories
-                    holding hundreds of near-miss names  vs  Model.cleanDecision;
+                    holding hundreds of near-miss names  vs  Model.cleanDecision per name, and — with the listing
+                    the function really iterated over (its glob() call is recorded) — vs the model's match loop as a
+                    fold with the scan flag as carried state (Model.cleanLoopF, driver `cleandir`);
   B  impl-name    : the REAL `wasmCWriteImplementationFile` creating files for boundary/random U32 indices
                     vs  Model.implName;
   C  paths        : the dirname/basename the translator is built with (glibc and the bundled compat.c)
@@ -16,7 +18,11 @@ Tie (all against code built from a scratch copy of /repo's working tree):
                     names, sizes, SHA-256, mtimes before/after) vs the event list of Model.runC.
 Independently of the model, every observed run is judged against the property itself (P1): a write or
 delete outside {basename, header, [sd][0-9]{10}.c, datasegments in external modes} in dirname(out),
-or a modified input, is a VIOLATION with the directory listing + command line as replay.
+or a modified input, is a VIOLATION with the directory listing + command line as replay.  So is (P2, "with the clean option
+it additionally deletes files in that directory whose names match the implementation-file pattern") a matching name that a
+clean run / the real cleanImplementationFiles did not even try to remove: directories mixing several dozen stale s*/d* files
+with 13-character decoys holding a non-digit, wrong lengths, wrong prefixes and other extensions, created in several orders
+(kinds `clean-mix-*`; seeded C20/11: the scan flag was no longer reset per entry).
 """
 import json
 import os
@@ -241,10 +247,28 @@ def corr_clean(chk, exes, d, n_random, broken):
             kinds[n] = kind
             fo.put(os.path.join(work, n), kind, rng, (tdir, i))
         before = fo.snapshot(d.encode())
-        fo.harness_lines(exes[variant], ["clean " + fo.hx(work)], d)
+        obs = fo.harness_lines(exes[variant], ["cleanobs " + fo.hx(work)], d)[0].split(" ")
         after = fo.snapshot(d.encode())
         created, deleted, modified = fo.diff(before, after)
         ans = Model().ask([f"clean 1 {fo.hx(n)}" for n in names] + [f"clean 0 {fo.hx(n)}" for n in names])
+        # the match loop as a whole: the listing the real function iterated over (its own glob call, recorded), in that order
+        if obs[0] != "ok" or len(obs) != 3 or obs[1] != "1":
+            broken.append({"kind": "correspondence", "msg": f"clean-inproc: cleanImplementationFiles did not call glob exactly once: {' '.join(obs)[:120]}"})
+        else:
+            listing = [fo.unhx(x) for x in obs[2].split(",")] if obs[2] != "-" else []
+            fold = Model().ask([f"cleandir 1 {obs[2]}"])[0]
+            if fold is not None:
+                if fold.startswith(("ub", "trap", "oof", "err")):
+                    broken.append({"kind": "correspondence", "msg": f"clean-inproc: model loop over the observed listing answers `{fold[:80]}`"})
+                else:
+                    m_rm = {fo.unhx(x) for x in fold.split(",")} if fold != "-" else set()
+                    m_gone = {n for n in m_rm if kinds.get(n) != "dn"}
+                    r_gone = {p[len(b"cleandir/"):] for p in deleted if p.startswith(b"cleandir/") and b"/" not in p[len(b"cleandir/"):]}
+                    if m_gone != r_gone:
+                        only_m, only_r = sorted(m_gone - r_gone)[:5], sorted(r_gone - m_gone)[:5]
+                        broken.append({"kind": "correspondence", "msg": f"clean-inproc: match loop over the {len(listing)} entries glob returned: "
+                                                                          f"model removes {len(m_gone)}, real {len(r_gone)}; only model {only_m}, only real {only_r}"})
+            chk.coverage["clean_inproc_listing"] = {"entries_glob_returned": len(listing), "of_names_created": len(names)}
         hist = {"removed": 0, "kept": 0}
         for i, n in enumerate(names):
             rel = b"cleandir/" + n
@@ -257,6 +281,14 @@ def corr_clean(chk, exes, d, n_random, broken):
             if gone and not spec:
                 chk.violation(f"clean-removes-{n.hex()}", f"cleanImplementationFiles removed {n!r}, which does not match [sd][0-9]{{10}}.c",
                               {"kind": "clean-inproc", "names": [x.hex() for x in names], "kinds": kinds_json(kinds), "offending": n.hex(),
+                               "replay_cmd": "python3 tools/check.py C20 --replay <this file>"}, True)
+            # property: every matching name is removed (a non-empty directory of that name cannot be)
+            if spec and not gone and kinds[n] != "dn":
+                chk.violation("clean-leaves-matching", f"cleanImplementationFiles left {n!r} ({kinds[n]}) in place although it matches [sd][0-9]{{10}}.c "
+                              f"(directory of {len(names)} entries; {sum(1 for x in names if IMPL_RE.match(x) and kinds[x] != 'dn' and (b'cleandir/' + x) not in deleted)} matching ones left)",
+                              {"kind": "clean-inproc", "names": [x.hex() for x in names], "kinds": kinds_json(kinds), "offending": n.hex(),
+                               "listing_in_creation_order": [x.decode("latin1") for x in names][:4000],
+                               "call": "cleanImplementationFiles() with this directory as the current directory (what `w2c2 -c …` does after chdir)",
                                "replay_cmd": "python3 tools/check.py C20 --replay <this file>"}, True)
             if m1 is None:
                 continue
@@ -400,16 +432,32 @@ LONG_KINDS = {
 }
 OUT_KINDS += list(LONG_KINDS)
 
+# Directories for the SECOND half of the property ("with the clean option it additionally deletes files … whose names match the
+# pattern"): several dozen stale implementation files of both prefixes mixed with decoys that pass every test but the digit scan
+# (13 characters, s/d first, `.c` last, a non-digit inside), plus wrong lengths / prefixes / extensions — created in several
+# orders, so that in ANY readdir order (creation order, reverse, hashed) some stale files come after some decoys.  Seeded C20/11:
+# the scan flag was not reset per entry; everything after the first decoy stayed.
+CLEAN_MIX_KINDS = {"clean-mix-stale-first": "stale-first", "clean-mix-decoys-first": "decoys-first", "clean-mix-shuffled": "shuffled",
+                   "clean-mix-interleaved": "interleaved"}
+OUT_KINDS += list(CLEAN_MIX_KINDS)
+DECOYS13 = [b"sha1_helper.c", b"deadbeef_00.c", b"s00000000a0.c", b"d000000000x.c", b"s-000000001.c", b"d00000 0000.c", b"s0x00000000.c",
+            b"dispatcher1.c", b"stringutils.c", b"sX000000000.c", b"s000000000_.c", b"d_000000000.c",
+            b"s000000\xc3\xa900.c", b"d123456789a.c", b"s1234o67890.c"]
+
 
 def make_case(rng, idx, pool, refs, forced_kind=None):
     """A case = tree spec + argv (all bytes), independent of the scratch location: the token
     b'@ROOT@' in paths stands for the sandbox root."""
     # every kind is forced once per run (corr_runs); random cases take a long-path kind only now and then (deep trees are slow)
-    kind = forced_kind or (rng.choice(sorted(LONG_KINDS)) if rng.random() < 0.06 else rng.choice(OUT_KINDS[:len(OUT_KINDS) - len(LONG_KINDS)]))
+    kind = forced_kind or (rng.choice(sorted(LONG_KINDS)) if rng.random() < 0.06 else
+                           rng.choice(sorted(CLEAN_MIX_KINDS)) if rng.random() < 0.05 else
+                           rng.choice(OUT_KINDS[:len(OUT_KINDS) - len(LONG_KINDS) - len(CLEAN_MIX_KINDS)]))
     tree = []           # (relpath, kind, content|None)
     dirs = {b"inv", b"other", b"targets", b"inputs"}
     if kind in LONG_KINDS:
         return make_long_case(rng, idx, pool, refs, kind, tree, dirs)
+    if kind in CLEAN_MIX_KINDS:
+        return make_clean_mix_case(rng, idx, pool, refs, kind, tree, dirs)
     outdir = {"rel": b"inv", "rel-nested": b"inv/sub/deep", "abs": b"abs dir", "dotdot": b"inv/y", "trail-new": b"inv/sub",
               "trail-dir": b"inv/sub", "noext": b"inv/sub", "dotfile": b"inv/sub", "dots": b"inv/sub", "hdr-is-out": b"inv/sub",
               "dot-c": b"inv/sub", "multi-slash": b"inv/sub/deep", "enddot": b"inv/sub", "nodir": None, "dotdot-base": b"inv/sub",
@@ -571,6 +619,61 @@ def make_long_case(rng, idx, pool, refs, kind, tree, dirs):
             "modarg": b"m.wasm", "refarg": refarg}
 
 
+def make_clean_mix_case(rng, idx, pool, refs, kind, tree, dirs):
+    """`w2c2 -c … gen/out.c` in a directory that mixes many stale implementation files with near-miss decoys (CLEAN_MIX_KINDS);
+    the order of `tree` IS the creation order of the directory entries."""
+    order = CLEAN_MIX_KINDS[kind]
+    outdir, outarg = b"inv/gen", b"gen/out.c"
+    dirs.add(outdir)
+    mname, mbytes = rng.choice([p for p in pool if len(fo.function_hashes(p[1])) >= 3] or pool)
+    tree.append((b"inv/m.wasm", "F", mbytes))
+    opts = {"fpf": rng.choice([0, 1, 2]), "t": rng.choice([0, 1, 2]), "p": 0, "g": 0, "m": 0, "c": 1, "d": rng.choice(["arrays", "gnu-ld"])}
+    argv = [b"-c"]
+    if opts["fpf"]:
+        argv += [b"-f", str(opts["fpf"]).encode()]
+    if opts["t"]:
+        argv += [b"-t", str(opts["t"]).encode()]
+    if opts["d"] != "arrays":
+        argv += [b"-d", opts["d"].encode()]
+    ns, nd = rng.randrange(24, 40), rng.randrange(16, 28)
+    stale = [b"s%010d.c" % i for i in range(ns)] + [b"d%010d.c" % i for i in range(nd)]
+    stale += [b"%c%010d.c" % (rng.choice(b"sd"), rng.randrange(10**10)) for _ in range(6)] + [b"s4294967295.c", b"d9999999999.c"]
+    decoys = list(rng.sample(DECOYS13, rng.randrange(5, len(DECOYS13))))
+    for _ in range(4):
+        body = bytearray(b"%010d" % rng.randrange(10**10))
+        body[rng.randrange(10)] = rng.choice(b"abcxyz_-+ ~AZ")
+        decoys.append(bytes([rng.choice(b"sd")]) + bytes(body) + b".c")
+    others = rng.sample(NEAR_MISS + [x for x in MORE_NEAR if b"/" not in x and len(x) != 13], 12) + rng.sample(UNRELATED, 4) + [b"out.c", b"out.h"]
+    stale = sorted(set(stale))
+    decoys = sorted(set(decoys) - set(stale))
+    others = sorted(set(others) - set(stale) - set(decoys))
+    if order == "stale-first":
+        names = stale + decoys + others
+    elif order == "decoys-first":
+        names = decoys + others + stale
+    elif order == "shuffled":
+        names = stale + decoys + others
+        rng.shuffle(names)
+    else:                           # a decoy after every few stale files
+        names, dq = [], decoys + others
+        for i, n in enumerate(stale):
+            names.append(n)
+            if i % 4 == 3 and dq:
+                names.append(dq.pop(0))
+        names += dq
+    for n in names:
+        k = "f"
+        if IMPL_RE.match(n) and rng.random() < 0.12:
+            k = rng.choice(["de", "lf", "lx", "dn"])
+        tree.append((outdir + b"/" + n, k, None))
+    for n in rng.sample(stale, 5) + rng.sample(decoys, 2):          # the start directory must stay as it is
+        tree.append((b"inv/" + n, "f", None))
+    argv += [b"m.wasm", outarg]
+    return {"id": idx, "kind": kind, "tree": tree, "dirs": sorted(dirs), "argv": argv, "outarg": outarg, "outdir": outdir,
+            "opts": opts, "module": mname, "mbytes": mbytes, "modstate": "ok", "ref": None, "refbytes": None,
+            "modarg": b"m.wasm", "refarg": None}
+
+
 def build_tree(root, case):
     """Materialise the tree spec under root (bytes path).  Returns {relpath: link target relpath}."""
     links = {}
@@ -703,6 +806,27 @@ def judge_property(case, root, before, after, links):
     return bad, through
 
 
+def judge_clean_complete(case, before, calls, rc):
+    """P2, independent of the model: a run with the clean option that got as far as cleaning (it ended with exit code 0, or it
+    removed / tried to remove something) must have called remove on EVERY pre-existing entry of dirname(out) whose name matches
+    the implementation-file pattern (a non-empty directory of such a name is tried and legitimately stays).
+    Returns list of (key, text)."""
+    outdir = case["outdir"]
+    if not case["opts"]["c"] or outdir is None:
+        return []
+    tried = {os.path.basename(path) for kind, path, ok, raw in calls if kind in ("unlink", "rmdir")}
+    if rc != 0 and not tried:
+        return []
+    pre = outdir + b"/"
+    stale = sorted(p[len(pre):] for p in before if p.startswith(pre) and b"/" not in p[len(pre):] and IMPL_RE.match(p[len(pre):]))
+    left = [n for n in stale if n not in tried]
+    if not left:
+        return []
+    return [("clean-leaves-matching-run",
+             f"run with the clean option (exit {rc}) never tried to remove {left[0]!r} in {outdir!r} although it matches [sd][0-9]{{10}}.c: "
+             f"{len(left)} of the {len(stale)} stale implementation files stay (first ones {[x.decode('latin1') for x in left[:4]]})")]
+
+
 def judge_syscalls(case, root, calls):
     """P1 at the level of system calls: every creating/truncating open, unlink, rmdir, rename, mkdir …
     must name (after resolving against the current directory) an allowed name directly in dirname(out).
@@ -759,7 +883,7 @@ def run_case(chk, exes, d, case, model_ans_for, broken, stats, variant):
         bad, through = judge_property(case, root, before, after, links)
         stats["write_through_symlink"] += len(through)
         bad2, sus = judge_syscalls(case, root, calls)
-        allbad = bad + bad2
+        allbad = bad + bad2 + judge_clean_complete(case, before, calls, rc)
         for key, text in allbad[:4]:          # one run in a wrong directory touches dozens of names: the first few identify it
             chk.violation(key, text + (f" (+{len(allbad) - 4} more in this run)" if len(allbad) > 4 else ""), replay, True)
         for t in sus:
@@ -921,7 +1045,7 @@ def corr_runs(chk, exes, d, n_cases, broken, deadline):
     stats = {"runs": 0, "kinds": {}, "exit": {}, "opts": {}, "removed": 0, "written": 0, "impl_files": 0,
              "write_through_symlink": 0, "exit_mismatch": 0}
     i = 0
-    kinds_cycle = list(OUT_KINDS)
+    kinds_cycle = list(CLEAN_MIX_KINDS) + [k for k in OUT_KINDS if k not in CLEAN_MIX_KINDS]     # every kind is forced once; the clean mixes first
     while i < n_cases and time.time() < deadline:
         forced = kinds_cycle[i] if i < len(kinds_cycle) else None
         case = make_case(chk.rng, i, good, refs, forced)
@@ -1005,8 +1129,9 @@ def replay(path):
             fo.harness_lines(exes["fh_lg1"], ["clean " + fo.hx(work)], d)
             left = set(os.listdir(work))
             gone = [n for n in names if n not in left and not IMPL_RE.match(n)]
-        print(f"replay clean-inproc: {len(names)} names, removed non-matching: {gone}")
-        return 1 if gone else 0
+            kept = [n for n in names if n in left and IMPL_RE.match(n) and kinds.get(n, "f") != "dn"]
+        print(f"replay clean-inproc: {len(names)} names, removed non-matching: {gone}; matching ones left in place: {len(kept)} {kept[:6]}")
+        return 1 if gone or kept else 0
     if r.get("kind") != "run":
         print("replay: this file names a broken obligation/correspondence, not an input:", json.dumps(r.get("broken", r))[:1500])
         return 1
@@ -1026,6 +1151,7 @@ def replay(path):
         after = fo.snapshot(root)
         bad, through = judge_property(case, root, before, after, links)
         bad += judge_syscalls(case, root, calls)[0]
+        bad += judge_clean_complete(case, before, calls, rc)
         created, deleted, modified = fo.diff(before, after)
     print("replay:", r["command_line"])
     print(" exit", rc, "| created", sorted(created), "| modified", sorted(modified), "| deleted", sorted(deleted))
